@@ -711,7 +711,8 @@ class Parser(ExprParser):
         elif self.have("ID"):
             pass
         else:
-            value = None
+            self.error_msg("Expected initializer after '=', found {}",
+                           self.token.typ)
         self.exit("initializer")
         return value
 
